@@ -19,6 +19,19 @@ class S:
         return "<" + self.tag + ">"
 
 
+class StrictDefault(S):
+    """A default value whose == / != do not return a bool (element-wise like a numpy array): the library must find out
+    whether a parameter has a default without comparing the default with anything."""
+
+    def __eq__(self, other: Any) -> Any:
+        raise ValueError("the truth value of a comparison with {!r} is ambiguous".format(self))
+
+    def __ne__(self, other: Any) -> Any:
+        raise ValueError("the truth value of a comparison with {!r} is ambiguous".format(self))
+
+    __hash__ = None  # type: ignore
+
+
 def bind_cfg(max_params: int, max_pos: int, sw_index_all: bool, sw_kw_over: bool, emit: bool) -> str:
     lines = ["SPECIFICATION BSpec", "CONSTANTS", "  MaxParams = {}".format(max_params), "  MaxPos = {}".format(max_pos),
              "  SwIndexAll = {}".format("TRUE" if sw_index_all else "FALSE"),
@@ -72,7 +85,7 @@ class SigHarness:
         self.ic = ic
         self.seen = {}  # type: Dict[Tuple[str, Any], Any]
         self.body_locals = None  # type: Any
-        self.D = {i: S("D{}".format(i)) for i in range(1, len(sig) + 1)}
+        self.D = {i: StrictDefault("D{}".format(i)) for i in range(1, len(sig) + 1)}
         named = [i for i, p in enumerate(sig, 1) if p["kind"] in ("po", "pk", "ko")]
         self.named = named
         ns = {"D": self.D, "H": self}
@@ -160,7 +173,16 @@ def replay_vectors(res: CheckResult, vectors: List[dict], ic: Any) -> Dict[str, 
     stats = {"signatures": len(by_sig), "calls": 0, "bindable": 0, "values_compared": 0}
     for key, vs in by_sig.items():
         sig = json.loads(key)
-        h = SigHarness(sig, ic)
+        try:
+            h = SigHarness(sig, ic)
+        except Exception as exc:  # noqa
+            res.violation("args.decoration_failed",
+                          "signature {}: decorating the function failed with {!r} (the defaults are objects whose == / != "
+                          "do not return a bool)".format(sig_source(sig, "...").split(chr(10))[0], exc),
+                          {"signature": "args.decoration_failed", "sig": sig})
+            if len(res.violations) > 20:
+                return stats
+            continue
         for v in vs:
             npos, kws = v["npos"], sorted(v["kws"])
             stats["calls"] += 1
